@@ -18,12 +18,12 @@ SPE = 2  # slots per epoch of the virtual beacon network, the same in every Slas
 
 def _tier(tier):
     if tier == "quick":
-        return dict(mc="Slashing_quick.cfg", mc_stop=150, cover="Slashing_cover.cfg", extra_edges=1200,
-                    sim=("Slashing_sim.cfg", 120, 40), record_runs=150, conc_rounds=40, race=False,
-                    apalache=False, per_invariant=False)
-    return dict(mc="Slashing_thorough.cfg", mc_stop=1500, cover="Slashing_cover_thorough.cfg", extra_edges=25000,
-                sim=("Slashing_sim.cfg", 4000, 60), record_runs=3000, conc_rounds=500, race=True,
-                apalache=True, per_invariant=True)
+        return dict(mc="Slashing_quick.cfg", mc_stop=150, cover="Slashing_cover.cfg", max_leaves=1500, extra_edges=700,
+                    sim=("Slashing_sim.cfg", 150, 40), record_runs=150, conc_rounds=40, race=False,
+                    apalache=False, per_invariant=False, inert_small=True)
+    return dict(mc="Slashing_thorough.cfg", mc_stop=1500, cover="Slashing_cover_thorough.cfg", max_leaves=12000,
+                extra_edges=8000, sim=("Slashing_sim.cfg", 4000, 60), record_runs=3000, conc_rounds=500, race=True,
+                apalache=True, per_invariant=True, inert_small=False)
 
 
 # Weaken variants: (cfg, what the weakening removes). A counterexample of the weakened spec is the schedule that
@@ -37,8 +37,10 @@ ATTACKS = [
     ("Slashing_attack_releaseBeforePersist.cfg", "signature handed out before the record is durable"),
     ("Slashing_attack_blockSlotLT.cfg", "block slot compared with < instead of <="),
     ("Slashing_attack_noSignLock.cfg", "check and update of two requests interleave (no per-account lock)"),
-    # the next two weaken a guard that the environment assumption (targets/slots not beyond the clock) makes
-    # redundant: no counterexample is expected, the result is reported in the evidence
+]
+# Weakenings of guards that the environment assumption (targets / slots not beyond the clock) makes redundant:
+# TLC exhausts the weakened spec without a counterexample; reported in the evidence, nothing to replay.
+INERT = [
     ("Slashing_attack_bumpOverwritesDown.cfg", "bump overwrites an existing record unconditionally"),
     ("Slashing_attack_readdNoBump.cfg", "re-add of a removed share skips the bump"),
 ]
@@ -47,37 +49,84 @@ ATTACKS = [
 DEVIATIONS = [
     ("Slashing_fault_rempty.cfg", "stored record value is empty (code as written)"),
 ]
-PROPERTY_INVARIANTS = ["NoDoubleVote", "NoSurround", "NoDoubleBlock"]
+CLAUSES = ["NoDoubleVote", "NoSurround", "NoDoubleBlock", "RefuseWhenUnknown"]
 
 
 def _acts(trace):
     return json.dumps(vlib.tlaval.plain([s.get("act") for s in trace]))
 
 
+def _tlc(*a, **kw):
+    """vlib.tlc, repeated when the JVM was killed from outside (another check's timeout handler kills every TLC)."""
+    for attempt in range(3):
+        r = vlib.tlc(*a, **kw)
+        killed = getattr(r, "rc", 0) not in (0, 10, 11, 12, 13) and not r.violation and not r.error and \
+            "Model checking completed" not in r.out and "stopAfter" not in r.out and r.wall < kw.get("timeout", 600) - 5
+        if not killed:
+            return r
+        log("[C04] TLC run %s was killed from outside (rc=%s), repeating" % (kw.get("name") or a[1], getattr(r, "rc", "?")))
+    return r
+
+
+def _only(cfg_text, clauses):
+    return "\n".join(ln for ln in cfg_text.split("\n")
+                     if not (ln.startswith("INVARIANT") or ln.startswith("PROPERTY")) or ln.split()[1] in clauses)
+
+
 def _attack_runs(T):
-    """Run every attack / deviation config (in parallel); returns list of (ident, kind, TLCResult)."""
+    """Run every attack / deviation / inert config (in parallel); returns list of (ident, kind, TLCResult)."""
     jobs = []
     for cfg, desc in ATTACKS:
         jobs.append((cfg.replace(".cfg", ""), "attack:" + desc, cfg, None))
     for cfg, desc in DEVIATIONS:
         jobs.append((cfg.replace(".cfg", ""), "attack:deviation:" + desc, cfg, None))
-    if T["per_invariant"]:
-        # one counterexample per violated property clause, not only the shortest overall
-        for cfg, desc in ATTACKS[:7] + DEVIATIONS:
-            src = open(os.path.join(vlib.SPEC, cfg)).read()
-            for inv in PROPERTY_INVARIANTS + ["RefuseWhenUnknown"]:
-                lines = [ln for ln in src.split("\n")
-                         if not (ln.startswith("INVARIANT") or ln.startswith("PROPERTY")) or ln.split()[1] == inv]
-                name = cfg.replace(".cfg", "") + "_" + inv
-                jobs.append((name, "attack:" + desc + " / " + inv, name + ".cfg", "\n".join(lines)))
+    for cfg, desc in INERT:
+        src = open(os.path.join(vlib.SPEC, cfg)).read()
+        if T["inert_small"]:
+            src = src.replace("MaxSlot = 7", "MaxSlot = 5")
+        jobs.append((cfg.replace(".cfg", ""), "inert:" + desc, cfg.replace(".cfg", "_run.cfg"), src))
+    # one counterexample per violated clause of the property, not only the first one TLC meets
+    per = ATTACKS[:7] + DEVIATIONS if T["per_invariant"] else [ATTACKS[4]] + DEVIATIONS
+    for cfg, desc in per:
+        src = open(os.path.join(vlib.SPEC, cfg)).read()
+        for inv in CLAUSES:
+            name = cfg.replace(".cfg", "") + "_" + inv
+            kind = ("attack:deviation:" if cfg.startswith("Slashing_fault") else "attack:") + desc + " / " + inv
+            jobs.append((name, kind, name + ".cfg", _only(src, [inv])))
 
     def one(job):
         ident, kind, cfg, content = job
         files = {cfg: content} if content else None
-        return ident, kind, vlib.tlc(MOD, cfg, name=ident, workers=2, timeout=900, stop_after=600, files=files)
+        return ident, kind, _tlc(MOD, cfg, name=ident, workers=2, timeout=1500, stop_after=1200, files=files)
 
-    with concurrent.futures.ThreadPoolExecutor(max_workers=5) as ex:
+    with concurrent.futures.ThreadPoolExecutor(max_workers=6) as ex:
         return list(ex.map(one, jobs))
+
+
+def _select(behs, cap, seed):
+    """At most `cap` cover behaviours, spread over the kinds of their last call (round robin over the kinds)."""
+    import random
+    if len(behs) <= cap:
+        return behs
+    groups = {}
+    for b in behs:
+        a = b["steps"][-1]["act"]
+        key = (a.get("name"), a.get("res"), (a.get("fault") or {}).get("k"), (a.get("fault") or {}).get("at"))
+        groups.setdefault(key, []).append(b)
+    rng = random.Random(seed)
+    for g in groups.values():
+        rng.shuffle(g)
+    out = []
+    keys = sorted(groups, key=str)
+    while len(out) < cap:
+        progressed = False
+        for k in keys:
+            if groups[k] and len(out) < cap:
+                out.append(groups[k].pop())
+                progressed = True
+        if not progressed:
+            break
+    return out
 
 
 def _apalache(wd):
@@ -124,13 +173,16 @@ def run(tier, seed):
     wd = os.path.join(vlib.WORK, PROP)
     os.makedirs(wd, exist_ok=True)
 
-    # the attack configs and (thorough) Apalache run beside the exhaustive run
-    pool = concurrent.futures.ThreadPoolExecutor(max_workers=2)
+    # everything that only needs TLC / Apalache runs side by side
+    pool = concurrent.futures.ThreadPoolExecutor(max_workers=4)
     fut_attacks = pool.submit(_attack_runs, T)
     fut_apalache = pool.submit(_apalache, wd) if T["apalache"] else None
+    fut_cover = pool.submit(vlib.tlc_dump_graph, MOD, T["cover"], None, 1800, None, 4)
+    cfg, num, depth = T["sim"]
+    fut_sim = pool.submit(vlib.tlc_simulate, MOD, cfg, num, depth, seed, None, 1500, None, ["act"])
 
     # 1. exhaustive model checking of the faithful spec
-    r = vlib.tlc(MOD, T["mc"], workers=8, timeout=T["mc_stop"] + 600, stop_after=T["mc_stop"])
+    r = _tlc(MOD, T["mc"], workers=8, timeout=T["mc_stop"] + 600, stop_after=T["mc_stop"])
     if not vlib.expect_tlc_ok(r, T["mc"]):
         raise vlib.MachineryError("faithful Slashing spec violates %s (model error, not a verdict):\n%s" %
                                   (r.violation, _acts(r.trace)))
@@ -141,15 +193,19 @@ def run(tier, seed):
         (T["mc"], r.distinct, r.generated, r.finished, r.wall))
 
     # 2. state-graph cover of a small faithful config
-    rg, nodes, edges, inits = vlib.tlc_dump_graph(MOD, T["cover"], timeout=1800, workers=4)
+    rg, nodes, edges, inits = fut_cover.result()
+    if not rg.finished and not rg.violation and not nodes:
+        rg, nodes, edges, inits = vlib.tlc_dump_graph(MOD, T["cover"], timeout=1800, workers=4)   # killed from outside
     if not vlib.expect_tlc_ok(rg, T["cover"]):
         raise vlib.MachineryError("cover config violates %s:\n%s" % (rg.violation, _acts(rg.trace)))
     behs, gstat = vlib.graph_behaviours(nodes, edges, inits, seed, max_extra=T["extra_edges"])
+    leaves = [b for b in behs if "-leaf-" in b["id"]]
+    behs = _select(leaves, T["max_leaves"], seed) + [b for b in behs if "-leaf-" not in b["id"]]
+    gstat["leaves_replayed"] = min(len(leaves), T["max_leaves"])
     cov["cover_graph"] = gstat
     log("[C04] cover graph %s: %s" % (T["cover"], gstat))
     # 3. simulated behaviours of a larger faithful config
-    cfg, num, depth = T["sim"]
-    rs, sb = vlib.tlc_simulate(MOD, cfg, num, depth, seed, keep_vars=["act"], timeout=1200)
+    rs, sb = fut_sim.result()
     if rs.violation or rs.error:
         raise vlib.MachineryError("simulation config: %s %s\n%s" % (rs.violation, rs.error, _acts(rs.trace)))
     for k, b in enumerate(sb):
@@ -166,9 +222,12 @@ def run(tier, seed):
         cov["attacks"][ident] = {"counterexample": ra.violation or None, "steps": len(ra.trace),
                                  "distinct": ra.distinct, "exhausted": ra.finished}
         if not ra.violation:
-            log("[C04] attack config %s: no counterexample (%d distinct states, exhausted=%s)" %
-                (ident, ra.distinct, ra.finished))
+            if not kind.startswith("inert") and "_No" not in ident and "_Refuse" not in ident:
+                log("[C04] attack config %s: no counterexample (%d distinct states, exhausted=%s)" %
+                    (ident, ra.distinct, ra.finished))
             continue
+        if kind.startswith("inert"):
+            log("[C04] NOTE: weakening %s is no longer inert: %s" % (ident, ra.violation))
         attack_behs.append(vlib.trace_behaviour(ra.trace, "attack-" + ident, kind))
     cov["attack_traces"] = len(attack_behs)
 
@@ -263,13 +322,6 @@ def run(tier, seed):
     return rc
 
 
-def _classify(v):
-    """The empty-value deviation is one specific finding; every other trip keeps the monitor's signature."""
-    if "rempty" in v["description"] or "Slashing_fault_rempty" in v["behaviour"]:
-        return "signed-with-empty-proposal-record"
-    return v["signature"]
-
-
 def _collect(res, verdict, replay_path, wd):
     for v in res["violations"]:
         path = replay_path
@@ -279,7 +331,7 @@ def _collect(res, verdict, replay_path, wd):
                 if '"id":"%s"' % v["behaviour"] in ln:
                     path = vlib.save_replay(PROP, v["behaviour"] + ".ndjson", ln)
                     break
-        verdict.violation(_classify(v), "%s [%s step %d]" % (v["description"], v["behaviour"], v["step"]), path)
+        verdict.violation(v["signature"], "%s [%s step %d]" % (v["description"], v["behaviour"], v["step"]), path)
 
 
 def _selftest(tr, wd):
